@@ -49,6 +49,10 @@ pub struct Known {
     pub pat_huge: bool,
 }
 pub static mut KNOWN: Known = Known { pat_huge: false };
+thread_local! {
+    /// how often the open PAT finding made the generator drop bit 12 from huge leaf flags
+    pub static EXCLUDED_PAT: std::cell::Cell<u64> = std::cell::Cell::new(0);
+}
 fn known() -> Known {
     unsafe { *core::ptr::addr_of!(KNOWN) }
 }
@@ -316,8 +320,12 @@ impl Ctx {
         let mut f = self.flag_sets[pick(ix, self.flag_sets.len())] | P;
         if lvl > 1 {
             f &= !HUGE; // HUGE is added by the mapper for huge leaves
-            if !known().pat_huge && ix & 3 == 0 {
-                f |= 1 << 12; // PAT bit of huge pages
+            if ix & 3 == 0 {
+                if known().pat_huge {
+                    EXCLUDED_PAT.with(|c| c.set(c.get() + 1));
+                } else {
+                    f |= 1 << 12; // PAT bit of huge pages
+                }
             }
         }
         f
@@ -1593,6 +1601,13 @@ pub fn run_case(case: &MapCase, enabled: u32, obs: &mut Obs) -> CaseResult {
     }
     let a = &runs[0].1;
     obs.add_evals((3 * case.ops.len()) as u64);
+    let ex = EXCLUDED_PAT.with(|c| c.replace(0));
+    if ex > 0 {
+        obs.exclude("C01-huge-leaf-with-PAT-bit-cannot-be-unmapped");
+    }
+    for (i, r) in a.results.iter().take(16).enumerate() {
+        obs.notes.push(format!("#{} {:?} -> {}", i, case.ops.get(i).map(|o| format!("{:?}", o)).unwrap_or_default().chars().take(60).collect::<String>(), r.chars().take(80).collect::<String>()));
+    }
     for (b, r) in &runs {
         for l in &r.labels {
             obs.label(format!("{:?}:{}", b, l));
@@ -1603,5 +1618,30 @@ pub fn run_case(case: &MapCase, enabled: u32, obs: &mut Obs) -> CaseResult {
         obs.nontrivial(&a.shape);
     }
     obs.label(format!("tables-at-end:{}", a.final_tables.min(9)));
+    Ok(())
+}
+
+
+/// C02: run the history under every allocator failure schedule (none, fail 1st, 2nd, 3rd, all) of
+/// one chosen allocating call ("fault enumeration inside an exploration").
+pub fn run_case_all_schedules(case: &MapCase, which: u16, enabled: u32, obs: &mut Obs) -> CaseResult {
+    let idxs: Vec<usize> = case.ops.iter().enumerate().filter(|(_, o)| matches!(o, MOp::Map { .. } | MOp::IdentityMap { .. })).map(|(i, _)| i).collect();
+    if idxs.is_empty() {
+        return run_case(case, enabled, obs);
+    }
+    let k = idxs[pick(which, idxs.len())];
+    for fail in 0u8..=4 {
+        let mut c = case.clone();
+        match &mut c.ops[k] {
+            MOp::Map { fail: f, .. } | MOp::IdentityMap { fail: f, .. } => *f = fail,
+            _ => {}
+        }
+        let mut o = Obs::default();
+        run_case(&c, enabled, &mut o).map_err(|m| format!("(schedule {} at op #{}) {}", fail, k, m))?;
+        obs.labels.extend(o.labels);
+        obs.nontrivial.extend(o.nontrivial);
+        obs.evals += o.evals;
+    }
+    obs.label("schedules-enumerated");
     Ok(())
 }
